@@ -4,6 +4,7 @@ Every function takes the worker context, the loaded library `dn`, the real graph
 model `m`, issues queries through G's public API only and reports through ctx.expect().
 `tag` prefixes oracle names (e.g. "slice:" when the audited object is a derived graph).
 """
+import numbers
 from collections import Counter
 
 import networkx as nx
@@ -11,6 +12,22 @@ import networkx as nx
 from .model import runs
 
 FAR = (-10 ** 9, 10 ** 9)
+
+
+def poison(x):
+    """A caller may do what it likes with a returned container: after an answer has been compared, its
+    top-level container is overwritten in place.  If the library handed out (or cached) internal state, the
+    next query or the next audit sees the damage.  Only top-level containers are touched - nested objects
+    such as node attribute dicts and the adjacency entry returned by interactions() are live by design."""
+    try:
+        if isinstance(x, dict):
+            for k in list(x):
+                x[k] = "poisoned-by-caller"
+        elif isinstance(x, list):
+            x[:] = ["poisoned-by-caller"] * len(x)
+    except TypeError:
+        pass
+    return x
 
 
 def instants(m, cap=14, rng=None):
@@ -94,7 +111,8 @@ def canonical_problem(tl):
         if not (isinstance(iv, (list, tuple)) and len(iv) == 2):
             return "interval is not a pair"
         a, b = iv
-        if not (isinstance(a, int) and isinstance(b, int)) or isinstance(a, bool) or isinstance(b, bool):
+        if not (isinstance(a, numbers.Integral) and isinstance(b, numbers.Integral)) \
+                or isinstance(a, bool) or isinstance(b, bool):
             return "non-integer bound"
         if a > b:
             return "start > end"
@@ -137,12 +155,18 @@ def audit_snapshots(ctx, dn, G, m, tag="", ts=None):
     ids = m.ids()
     obs = G.temporal_snapshots_ids()
     ctx.expect(tag + "temporal_snapshots_ids", obs, ids, dict())
+    poison(obs)
     ctx.expect(tag + "dn.temporal_snapshots_ids", dn.temporal_snapshots_ids(G), ids, dict())
     if not m.removal:
+        # queries have no side effect: probing instants (inhabited or not) must not create snapshot ids
+        for t in (instants(m, rng=ctx.rng) if ts is None else ts):
+            G.interactions_per_snapshots(t)
+        ctx.expect(tag + "temporal_snapshots_ids(after probing)", G.temporal_snapshots_ids(), ids, dict())
         return
     per = G.interactions_per_snapshots()
     exp = {t: m.count_at(t) for t in ids}
     ctx.expect(tag + "interactions_per_snapshots()", per, exp, dict())
+    poison(per)
     ctx.expect(tag + "dn.interactions_per_snapshots()", dn.interactions_per_snapshots(G), exp, dict())
     ts = instants(m, rng=ctx.rng) if ts is None else ts
     for t in ts:
@@ -156,6 +180,8 @@ def audit_snapshots(ctx, dn, G, m, tag="", ts=None):
         mean = sum(sum(1 for n, d in s.degree() if d > 0) for s in S) / len(ids)
         ctx.expect(tag + "avg_number_of_nodes", G.avg_number_of_nodes(), mean, dict(),
                    eq=lambda a, b: isinstance(a, (int, float)) and abs(a - b) <= 1e-12 * max(1, abs(b)))
+    # queries have no side effect: after all the probing above the ids are still the same
+    ctx.expect(tag + "temporal_snapshots_ids(after probing)", G.temporal_snapshots_ids(), ids, dict())
 
 
 # ---------------------------------------------------------------------- C05 stream
@@ -270,7 +296,9 @@ def audit_queries(ctx, dn, G, m, tag="", ts=None, full=True):
 
         # --- nodes, has_node, number_of_nodes
         exp_nodes = list(S) if t is None else active
-        ctx.expect(tag + "nodes(t)", Counter(G.nodes(t)), Counter(exp_nodes), detail)
+        raw = G.nodes(t)
+        ctx.expect(tag + "nodes(t)", Counter(raw), Counter(exp_nodes), detail)
+        poison(raw)
         ctx.expect(tag + "dn.nodes(G,t)", Counter(dn.nodes(G, t)), Counter(exp_nodes), detail)
         obs = G.nodes(t, data=True) if t is not None else G.nodes(data=True)
         obs = list(obs)
@@ -291,7 +319,8 @@ def audit_queries(ctx, dn, G, m, tag="", ts=None, full=True):
                 exp = Counter(list(S.out_edges(known)))
             else:
                 exp = _ms(list(S.edges(known)), m)
-            lst = G.interactions(nb, t) if t is not None else G.interactions(nb)
+            lst = G.interactions(iter(nb) if (nb is not None and len(nb) == 2) else nb, t) \
+                if t is not None else G.interactions(nb)
             third_ok = all(len(x) == 3 for x in lst) and \
                 (t is None or all(x[2] == {"t": [t]} for x in lst))
             ctx.expect(tag + "interactions:tuple-shape", third_ok, True, d2)
@@ -330,7 +359,9 @@ def audit_queries(ctx, dn, G, m, tag="", ts=None, full=True):
             d2 = dict(t=t, n=n)
             if m.directed:
                 succ, pred = list(S.successors(n)), list(S.predecessors(n))
-                ctx.expect(tag + "successors(n,t)", Counter(G.successors(n, t)), Counter(succ), d2)
+                raw = G.successors(n, t)
+                ctx.expect(tag + "successors(n,t)", Counter(raw), Counter(succ), d2)
+                poison(raw)
                 ctx.expect(tag + "successors_iter(n,t)", Counter(G.successors_iter(n, t)), Counter(succ), d2)
                 ctx.expect(tag + "predecessors(n,t)", Counter(G.predecessors(n, t)), Counter(pred), d2)
                 ctx.expect(tag + "predecessors_iter(n,t)", Counter(G.predecessors_iter(n, t)), Counter(pred), d2)
@@ -346,7 +377,9 @@ def audit_queries(ctx, dn, G, m, tag="", ts=None, full=True):
                     ctx.violation(tag + "dn.non_neighbors(G,n,t)", dict(d2, observed=nn, expected=both))
             else:
                 nb_ = list(S.neighbors(n))
-                ctx.expect(tag + "neighbors(n,t)", Counter(G.neighbors(n, t)), Counter(nb_), d2)
+                raw = G.neighbors(n, t)
+                ctx.expect(tag + "neighbors(n,t)", Counter(raw), Counter(nb_), d2)
+                poison(raw)
                 ctx.expect(tag + "neighbors_iter(n,t)", Counter(G.neighbors_iter(n, t)), Counter(nb_), d2)
                 ctx.expect(tag + "dn.neighbors(G,n,t)", Counter(dn.neighbors(G, n, t)), Counter(nb_), d2)
                 ctx.expect(tag + "dn.all_neighbors(G,n,t)", Counter(dn.all_neighbors(G, n, t)), Counter(nb_), d2)
@@ -356,8 +389,15 @@ def audit_queries(ctx, dn, G, m, tag="", ts=None, full=True):
         # --- degrees
         degS = dict(S.degree())
         devdeg = (lambda: {"dyngraph-selfloop-counted-once": _dev_degree(S, m)}) if loops else None
-        ctx.expect(tag + "degree(t)", G.degree(t=t), degS, detail, deviants=devdeg)
+        raw = G.degree(t=t)
+        ctx.expect(tag + "degree(t)", raw, degS, detail, deviants=devdeg)
+        poison(raw)
         ctx.expect(tag + "dn.degree(G,t)", dn.degree(G, t=t), degS, detail, deviants=devdeg)
+        # nbunch may be any iterable, also one that can be walked only once
+        ctx.expect(tag + "degree(nbunch-iterator,t)", G.degree(iter(list(some)), t), {n: degS[n] for n in some},
+                   dict(t=t, nbunch=some),
+                   deviants=(lambda: {"dyngraph-selfloop-counted-once":
+                                      {n: _dev_degree(S, m)[n] for n in some}}) if loops else None)
         for nb in nbunches[1:]:
             known = [n for n in nb if n in S]
             ctx.expect(tag + "degree(nbunch,t)", G.degree(nb, t), {n: degS[n] for n in known},
@@ -367,8 +407,16 @@ def audit_queries(ctx, dn, G, m, tag="", ts=None, full=True):
         ctx.expect(tag + "degree(n,t)", G.degree(one, t), degS[one], dict(t=t, n=one),
                    deviants=(lambda: {"dyngraph-selfloop-counted-once": _dev_degree(S, m)[one]}) if loops else None)
         if m.directed:
-            ctx.expect(tag + "in_degree(t)", G.in_degree(t=t), dict(S.in_degree()), detail)
-            ctx.expect(tag + "out_degree(t)", G.out_degree(t=t), dict(S.out_degree()), detail)
+            raw = G.in_degree(t=t)
+            ctx.expect(tag + "in_degree(t)", raw, dict(S.in_degree()), detail)
+            poison(raw)
+            raw = G.out_degree(t=t)
+            ctx.expect(tag + "out_degree(t)", raw, dict(S.out_degree()), detail)
+            poison(raw)
+            ctx.expect(tag + "in_degree(nbunch-iterator,t)", G.in_degree(iter(list(some)), t),
+                       {n: S.in_degree(n) for n in some}, dict(t=t, nbunch=some))
+            ctx.expect(tag + "out_degree(nbunch-iterator,t)", G.out_degree(iter(list(some)), t),
+                       {n: S.out_degree(n) for n in some}, dict(t=t, nbunch=some))
             ctx.expect(tag + "in_degree(n,t)", G.in_degree(one, t), S.in_degree(one), dict(t=t, n=one))
             ctx.expect(tag + "out_degree(n,t)", G.out_degree(one, t), S.out_degree(one), dict(t=t, n=one))
             nb = nbunches[3]
